@@ -42,7 +42,7 @@ Section Benign.
 Variable bname : bytes.
 Variable store : ident -> lookup.
 Variable async_store : bool.
-Notation Good := (Good store async_store).
+Notation Good := (Good (srow store) async_store).
 
 (* a permitted SUBSCRIBE is accepted and closes nobody *)
 Theorem permitted_subscribe q c s : In c (subchans (conns s q)) -> copen (conns s q) = true ->
@@ -62,7 +62,7 @@ Proof.
   intros G Hak Hc Ho. unfold on_publish. rewrite Hak, bytes_eqb_refl. apply memc_In in Hc. rewrite Hc, Ho. cbn [negb].
   destruct (ak_some_link store async_store s q me G Hak) as (r & Hla & Hp & _).
   apply memc_In in Hc. rewrite Hp in Hc.
-  destruct (publish_good store async_store q c d s me r G Hla Hc) as (s' & Es & Gs).
+  destruct (publish_good (srow store) async_store q c d s me r G Hla Hc) as (s' & Es & Gs).
   exists s'. split; [exact Es|]. split; [|exact Gs].
   pose proof (publish_sc q c d s) as X. rewrite Es in X. exact X.
 Qed.
